@@ -353,6 +353,29 @@ def linear(x=0, y=None):
   return _r.rec('linear', locals())
 
 
+@dataclasses.dataclass
+class DCFamilyBase(RecObj):
+  """A dataclass family: subclasses add default_factory fields or switch a field between a
+  factory and a plain default - per-class facts must not be inherited from the base class."""
+  a: Any = 1
+  items: List[Any] = dataclasses.field(default_factory=list)
+
+  def __post_init__(self):
+    self._record({f.name: getattr(self, f.name) for f in dataclasses.fields(self)})
+
+
+@dataclasses.dataclass
+class DCFamilySub(DCFamilyBase):
+  extra: Any = dataclasses.field(default_factory=dict)
+  plain: int = 5
+
+
+@dataclasses.dataclass
+class DCFamilySwitched(DCFamilyBase):
+  a: Any = dataclasses.field(default_factory=lambda: ['made', 'by', 'factory'])
+  items: Any = ('now', 'a', 'plain', 'default')
+
+
 def two(x=None, y=None):
   return _r.rec('two', locals())
 
